@@ -482,3 +482,82 @@ def all_tags_examined(ctx, s):
     s.add("S-MUSTPASS", fn, "ok-only-after-all-tags", "handle_deletion_event", fn.sp, PROVED if ok else VIOLATION,
           "Ok is returned only after the walk over all tags of the request ended" if ok else
           "the handler can return Ok before every tag of an accepted request was processed (later targets stay undeleted)")
+
+
+def removal_scan_window(ctx, s):
+    """S-REL: the two removal helpers scan their address from the beginning of time up to and including the `until` they are
+    given - the deletion handler passes the request's created_at and records the marker at the same (inclusive) time, the
+    replacement path passes the newcomer's created_at.  A helper that shifts the bound (until - 1, until + 1) leaves an
+    event written in that very second marked deleted but retrievable (or keeps / drops the holder on a tie)."""
+    for name in ("pocket_db::Store::remove_replaceable", "pocket_db::Store::remove_parameterized_replaceable"):
+        fn = ctx.fn(name)
+        an = ctx.E.an(fn)
+        ctx.functions.add(fn.path)
+        up = None
+        for i in range(1, fn.argc + 1):
+            if fn.local_name(i) == "until":
+                up = ("param", i)
+        its = [(b, i) for b, i in an.calls() if s.nice(i["callee"] or "").startswith("pocket_db::Lmdb::") and
+               s.nice(i["callee"]).endswith("_iter")]
+        short = name.rsplit("::", 1)[-1]
+        if up is None or not its:
+            s.add("S-REL", fn, "removal-scan-window", short, fn.sp, UNDECIDED,
+                  "the helper's `until` parameter or its index scan was not found: not decided")
+            continue
+        for b, info in its:
+            direct = any(a == up for a in info["args"])
+            derived = [a for a in info["args"] if a != up and contains_value(a, lambda y: y == up)]
+            from_min = any(contains_value(a, lambda y: y[0] == "call" and y[1].rsplit("::", 1)[-1] == "min" and "time" in y[1]) for a in info["args"])
+            verdict = PROVED if (direct and from_min) else (VIOLATION if (derived or not from_min) else UNDECIDED)
+            s.add("S-REL", fn, "removal-scan-window", short, info["sp"], verdict,
+                  "the scan runs from Time::min() up to the `until` it was given, unchanged" if verdict == PROVED else
+                  ("the scan does not run from Time::min() to the helper's `until` as given (a shifted or recomputed bound): an event "
+                   "at the boundary second is treated differently from how the caller - which records markers and compares "
+                   "created_at inclusively - assumes" if verdict == VIOLATION else
+                   "how the scan's upper bound derives from `until` was not recognised: not decided"), b)
+
+
+def lookup_skips_only_other_addresses(ctx, s):
+    """S-MUSTPASS: the two address lookups answer "what is stored at this address".  store_event relies on them for "is
+    anything left at the address => Replaced", so a stored event may be passed over only because it is not at the address
+    (its kind or d value differs from the one asked for).  Any other reason to move on to the next index entry - expired,
+    redacted, too old - hides a holder from the replacement logic while it stays indexed."""
+    for name in ("pocket_db::Store::find_replaceable_event_inner", "pocket_db::Store::find_parameterized_replaceable_event_inner"):
+        fn = ctx.fn(name)
+        an = ctx.E.an(fn)
+        cfg = an.cfg
+        ctx.functions.add(fn.path)
+        loops = cfg.natural_loops()
+        short = name.rsplit("::", 1)[-1]
+        fetch = [(b, i) for b, i in an.calls() if (i["callee"] or "").endswith("::get_event_by_offset")]
+        if not loops:
+            s.add("S-MUSTPASS", fn, "lookup-skips-only-other-addresses", short, fn.sp, PROVED,
+                  "the lookup takes the first index entry and does not move on")
+            continue
+        is_param = lambda y: y[0] == "param" and y[1] >= 2
+        is_ev = lambda y: y[0] == "call" and (y[1].startswith("pocket_types::event::") or y[1].startswith("pocket_types::tags::"))
+
+        def other_address(f):
+            t = f[1] if len(f) > 1 else None
+            if not (isinstance(t, tuple) and t):
+                return False
+            cmpname = t[1].rsplit("::", 1)[-1] if t[0] == "call" else ""
+            neg = (f[0] in ("ne", "nec")) or (f[0] == "false" and cmpname != "ne") or (f[0] == "true" and cmpname == "ne")
+            vals = [t] + [x for x in f[2:] if isinstance(x, tuple)]
+            return neg and any(contains_value(v, is_ev) for v in vals) and any(contains_value(v, is_param) for v in vals)
+        good = [n for n in range(cfg.nblocks, cfg.nblocks + len(cfg.edges)) if any(other_address(f) for f in s.edge_new_facts(fn, n))]
+        bad = None
+        for b, info in fetch:
+            inner = [H for H, body in loops.items() if b in body]
+            if not inner:
+                continue
+            H = min(inner, key=lambda h: len(loops[h]))
+            starts = s.ok_edges_of_call(fn, b) or [b]
+            reach = s.reach(fn, starts, avoid=good)
+            if H in reach:
+                bad = (b, info)
+        s.add("S-MUSTPASS", fn, "lookup-skips-only-other-addresses", short, fn.sp, PROVED if bad is None else VIOLATION,
+              "an index entry is passed over only when the event fetched for it is not at the address asked for" if bad is None else
+              "the lookup can pass over a stored event for a reason other than its address (kind / d value) being different: a "
+              "holder it skips is invisible to the replacement check in store_event but stays indexed, so an older version is "
+              "accepted next to it", bad[0] if bad else 0)
